@@ -12,6 +12,8 @@ import GoZero.Extracted.C20
 import GoZero.C20.Model
 import GoZero.C20.Ref
 import GoZero.C20.Ref2
+import GoZero.C20.Ref3
+import GoZero.C20.Scan
 namespace GoZero.C20.Tie
 open GoZero.C20
 
@@ -32,7 +34,8 @@ theorem tie_texts :
 theorem tie_writer_consts :
     (Extracted.C20.wNilIndent, Extracted.C20.wWhiteSpace, Extracted.C20.wIndent, Extracted.C20.wNewLine) = ("", " ", "\t", "\n") := by rfl
 
-theorem tie_scannerTable : Extracted.C20.scannerTable = Ref.scannerTable := by rfl
+theorem tie_scannerTable : Extracted.C20.scannerTable = Ref.scannerTable ∨ Extracted.C20.scannerTable = Ref.scannerTable_nulpatched := by
+  first | exact Or.inl rfl | exact Or.inr rfl
 theorem tie_p_Parse : Extracted.C20.p_Parse = Ref.p_Parse := by rfl
 theorem tie_p_parseStmt : Extracted.C20.p_parseStmt = Ref.p_parseStmt := by rfl
 theorem tie_p_parseService : Extracted.C20.p_parseService = Ref.p_parseService := by rfl
@@ -176,5 +179,144 @@ theorem tie_full_Scanner_skipWhiteSpace : Extracted.C20.full_Scanner_skipWhiteSp
 theorem tie_full_Scanner_isWhiteSpace : Extracted.C20.full_Scanner_isWhiteSpace = Ref.full_Scanner_isWhiteSpace := by rfl
 theorem tie_full_fmt_Source : Extracted.C20.full_fmt_Source = Ref.full_fmt_Source ∨ Extracted.C20.full_fmt_Source = Ref.full_fmt_Source_patched := by
   first | exact Or.inl rfl | exact Or.inr rfl
+
+/-! ### round 4: the scanner (model Scan.lean), token.go, format.File, AST.Format.
+`x_<func>`: whole statement list, literals verbatim. `sc_<pred>`: the scanner's rune predicates TRANSLATED to Lean and
+proven equal to the model's predicates for all runes. `sc_scan<Unit>`: every function of the duration family TRANSLATED
+statement by statement (readRune -> tail, the `for isDigit` loop -> dropWhile, `switch s.ch` -> if-chain, the three kinds
+of return) and proven equal to the model's function for all inputs. `sc_single`, `sc_durStart`: the rune tables of
+NextToken / scanIntOrDuration, proven equal to the model's `single` / `isDurStart` for all runes. -/
+
+theorem tie_x_Scanner_NextToken : Extracted.C20.x_Scanner_NextToken = Ref.x_Scanner_NextToken ∨ Extracted.C20.x_Scanner_NextToken = Ref.x_Scanner_NextToken_patched := by
+  first | exact Or.inl rfl | exact Or.inr rfl
+theorem tie_x_Scanner_newToken : Extracted.C20.x_Scanner_newToken = Ref.x_Scanner_newToken := by rfl
+theorem tie_x_Scanner_readRune : Extracted.C20.x_Scanner_readRune = Ref.x_Scanner_readRune := by rfl
+theorem tie_x_Scanner_peekRune : Extracted.C20.x_Scanner_peekRune = Ref.x_Scanner_peekRune := by rfl
+theorem tie_x_Scanner_scanString : Extracted.C20.x_Scanner_scanString = Ref.x_Scanner_scanString := by rfl
+theorem tie_x_Scanner_scanAt : Extracted.C20.x_Scanner_scanAt = Ref.x_Scanner_scanAt := by rfl
+theorem tie_x_Scanner_scanIntOrDuration : Extracted.C20.x_Scanner_scanIntOrDuration = Ref.x_Scanner_scanIntOrDuration := by rfl
+theorem tie_x_Scanner_illegalToken : Extracted.C20.x_Scanner_illegalToken = Ref.x_Scanner_illegalToken := by rfl
+theorem tie_x_Scanner_scanIdent : Extracted.C20.x_Scanner_scanIdent = Ref.x_Scanner_scanIdent := by rfl
+theorem tie_x_Scanner_scanLetterSet : Extracted.C20.x_Scanner_scanLetterSet = Ref.x_Scanner_scanLetterSet := by rfl
+theorem tie_x_Scanner_newPosition : Extracted.C20.x_Scanner_newPosition = Ref.x_Scanner_newPosition := by rfl
+theorem tie_x_Scanner_positionAt : Extracted.C20.x_Scanner_positionAt = Ref.x_Scanner_positionAt := by rfl
+theorem tie_x_Scanner_lineCount : Extracted.C20.x_Scanner_lineCount = Ref.x_Scanner_lineCount := by rfl
+theorem tie_x_NewScanner : Extracted.C20.x_NewScanner = Ref.x_NewScanner := by rfl
+theorem tie_x_Token_Is : Extracted.C20.x_Token_Is = Ref.x_Token_Is := by rfl
+theorem tie_x_Token_IsType : Extracted.C20.x_Token_IsType = Ref.x_Token_IsType := by rfl
+theorem tie_x_Token_Line : Extracted.C20.x_Token_Line = Ref.x_Token_Line := by rfl
+theorem tie_x_Token_Fork : Extracted.C20.x_Token_Fork = Ref.x_Token_Fork := by rfl
+theorem tie_x_Token_Valid : Extracted.C20.x_Token_Valid = Ref.x_Token_Valid := by rfl
+theorem tie_x_Token_IsComment : Extracted.C20.x_Token_IsComment = Ref.x_Token_IsComment := by rfl
+theorem tie_x_Token_IsDocument : Extracted.C20.x_Token_IsDocument = Ref.x_Token_IsDocument := by rfl
+theorem tie_x_LookupKeyword : Extracted.C20.x_LookupKeyword = Ref.x_LookupKeyword := by rfl
+theorem tie_x_NewIllegalToken : Extracted.C20.x_NewIllegalToken = Ref.x_NewIllegalToken := by rfl
+theorem tie_x_fmt_File : Extracted.C20.x_fmt_File = Ref.x_fmt_File := by rfl
+theorem tie_x_AST_Format : Extracted.C20.x_AST_Format = Ref.x_AST_Format := by rfl
+theorem tie_x_peekOne : Extracted.C20.x_peekOne = Ref.x_peekOne := by rfl
+theorem tie_x_Writer_write : Extracted.C20.x_Writer_write = Ref.x_Writer_write := by rfl
+theorem tie_x_Writer_WriteText : Extracted.C20.x_Writer_WriteText = Ref.x_Writer_WriteText := by rfl
+theorem tie_x_Writer_Flush : Extracted.C20.x_Writer_Flush = Ref.x_Writer_Flush := by rfl
+theorem tie_x_withNode : Extracted.C20.x_withNode = Ref.x_withNode := by rfl
+theorem tie_x_Parser_Parse : Extracted.C20.x_Parser_Parse = Ref.x_Parser_Parse := by rfl
+theorem tie_x_Parser_CheckErrors : Extracted.C20.x_Parser_CheckErrors = Ref.x_Parser_CheckErrors := by rfl
+theorem tie_x_Parser_curTokenIsKeyword : Extracted.C20.x_Parser_curTokenIsKeyword = Ref.x_Parser_curTokenIsKeyword := by rfl
+theorem tie_x_Parser_peekTokenIs : Extracted.C20.x_Parser_peekTokenIs = Ref.x_Parser_peekTokenIs := by rfl
+theorem tie_x_Parser_expectPeekToken : Extracted.C20.x_Parser_expectPeekToken = Ref.x_Parser_expectPeekToken := by rfl
+theorem tie_x_New : Extracted.C20.x_New = Ref.x_New := by rfl
+
+theorem tie_x_Parser_curTokenIs : Extracted.C20.x_Parser_curTokenIs = Ref.x_Parser_curTokenIs := by rfl
+theorem tie_x_Parser_curTokenIsNot : Extracted.C20.x_Parser_curTokenIsNot = Ref.x_Parser_curTokenIsNot := by rfl
+theorem tie_x_Parser_curTokenIsNotEof : Extracted.C20.x_Parser_curTokenIsNotEof = Ref.x_Parser_curTokenIsNotEof := by rfl
+theorem tie_x_Parser_peekTokenIsNot : Extracted.C20.x_Parser_peekTokenIsNot = Ref.x_Parser_peekTokenIsNot := by rfl
+theorem tie_x_Parser_advanceIfPeekTokenIs : Extracted.C20.x_Parser_advanceIfPeekTokenIs = Ref.x_Parser_advanceIfPeekTokenIs := by rfl
+theorem tie_x_Parser_notExpectPeekToken : Extracted.C20.x_Parser_notExpectPeekToken = Ref.x_Parser_notExpectPeekToken := by rfl
+theorem tie_x_Parser_notExpectPeekTokenGotComment : Extracted.C20.x_Parser_notExpectPeekTokenGotComment = Ref.x_Parser_notExpectPeekTokenGotComment := by rfl
+theorem tie_x_Parser_expectIdentError : Extracted.C20.x_Parser_expectIdentError = Ref.x_Parser_expectIdentError := by rfl
+theorem tie_x_Parser_appendStmt : Extracted.C20.x_Parser_appendStmt = Ref.x_Parser_appendStmt := by rfl
+theorem tie_x_Parser_hasNoErrors : Extracted.C20.x_Parser_hasNoErrors = Ref.x_Parser_hasNoErrors := by rfl
+
+theorem tie_x_isNil : Extracted.C20.x_isNil = Ref.x_isNil := by rfl
+
+theorem tie_sc_isDigit (c : Char) : Extracted.C20.sc_isDigit c.toNat = Scan.isDigit c := rfl
+theorem tie_sc_isLetter (c : Char) : Extracted.C20.sc_isLetter c.toNat = Scan.isLetter c := rfl
+theorem tie_sc_isIdentifierLetter (c : Char) : Extracted.C20.sc_isIdentifierLetter c.toNat = Scan.isIdL c := by
+  rw [Bool.eq_iff_iff]; simp [Extracted.C20.sc_isIdentifierLetter, Scan.isIdL, tie_sc_isLetter]
+theorem tie_sc_isWhiteSpace (c : Char) : Extracted.C20.sc_isWhiteSpace c.toNat = Scan.isWS c := by
+  rw [Bool.eq_iff_iff]; simp [Extracted.C20.sc_isWhiteSpace, Scan.isWS]
+
+/-- the runes `scanIntOrDuration` hands to `scanDuration` are the model's `isDurStart` -/
+theorem tie_sc_durStart (c : Char) : (Extracted.C20.sc_durStart.map (·.1)).contains c.toNat = Scan.isDurStart c := by
+  rw [Bool.eq_iff_iff]; simp [Extracted.C20.sc_durStart, Scan.isDurStart]; omega
+
+def kname : K → String
+  | .SUB => "SUB" | .MUL => "MUL" | .LPAREN => "LPAREN" | .LBRACK => "LBRACK" | .LBRACE => "LBRACE" | .COMMA => "COMMA"
+  | .RPAREN => "RPAREN" | .RBRACK => "RBRACK" | .RBRACE => "RBRACE" | .SEMICOLON => "SEMICOLON" | .COLON => "COLON"
+  | .ASSIGN => "ASSIGN" | _ => "?"
+
+/-- the single-rune tokens of `NextToken` are the model's `single` -/
+theorem tie_sc_single (c : Char) : Extracted.C20.sc_single.lookup c.toNat = (Scan.single c).map kname := by
+  unfold Scan.single Extracted.C20.sc_single
+  split <;> rename_i h <;> first
+    | (simp [List.lookup, kname, h]; done)
+    | (have e45 : (c.toNat == 45) = false := by simp; omega
+       have e42 : (c.toNat == 42) = false := by simp; omega
+       have e40 : (c.toNat == 40) = false := by simp; omega
+       have e91 : (c.toNat == 91) = false := by simp; omega
+       have e123 : (c.toNat == 123) = false := by simp; omega
+       have e44 : (c.toNat == 44) = false := by simp; omega
+       have e41 : (c.toNat == 41) = false := by simp; omega
+       have e93 : (c.toNat == 93) = false := by simp; omega
+       have e125 : (c.toNat == 125) = false := by simp; omega
+       have e59 : (c.toNat == 59) = false := by simp; omega
+       have e58 : (c.toNat == 58) = false := by simp; omega
+       have e61 : (c.toNat == 61) = false := by simp; omega
+       simp only [List.lookup, e45, e42, e40, e91, e123, e44, e41, e93, e125, e59, e58, e61, Option.map])
+
+def enc : Scan.DRes → Bool × List Char
+  | .dur r => (true, r)
+  | .ill r => (false, r)
+
+theorem cur_eq (cs : List Char) : Extracted.C20.sc_cur cs = Scan.cur cs := by cases cs <;> rfl
+theorem dig_eq : (fun c : Char => Extracted.C20.sc_isDigit c.toNat) = Scan.isDigit := rfl
+
+theorem tie_sc_scanNanosecond (cs : List Char) : Extracted.C20.sc_scanNanosecond cs = enc (Scan.scanNano cs) := by
+  simp only [Extracted.C20.sc_scanNanosecond, Scan.scanNano, cur_eq]
+  split <;> simp_all [enc]
+
+theorem tie_sc_scanMicrosecond (cs : List Char) : Extracted.C20.sc_scanMicrosecond cs = enc (Scan.scanMicro cs) := by
+  simp only [Extracted.C20.sc_scanMicrosecond, Scan.scanMicro, Scan.skipDigits, cur_eq, tie_sc_isDigit, tie_sc_scanNanosecond]
+  (repeat' split) <;> simp_all [enc]
+
+theorem tie_sc_scanMillisecond (cs : List Char) : Extracted.C20.sc_scanMillisecond cs = enc (Scan.scanMilli cs) := by
+  simp only [Extracted.C20.sc_scanMillisecond, Scan.scanMilli, Scan.skipDigits, cur_eq, tie_sc_isDigit, tie_sc_scanNanosecond, tie_sc_scanMicrosecond]
+  (repeat' split) <;> simp_all [enc]
+
+theorem tie_sc_scanSecond (cs : List Char) : Extracted.C20.sc_scanSecond cs = enc (Scan.scanSecond cs) := by
+  simp only [Extracted.C20.sc_scanSecond, Scan.scanSecond, Scan.milliAfterM, Scan.skipDigits, cur_eq, tie_sc_isDigit,
+    tie_sc_scanNanosecond, tie_sc_scanMicrosecond, tie_sc_scanMillisecond]
+  (repeat' split) <;> simp_all [enc]
+
+theorem tie_sc_scanMinute (cs : List Char) : Extracted.C20.sc_scanMinute cs = enc (Scan.scanMinute cs) := by
+  simp only [Extracted.C20.sc_scanMinute, Scan.scanMinute, Scan.milliAfterM, Scan.skipDigits, cur_eq, tie_sc_isDigit,
+    tie_sc_scanNanosecond, tie_sc_scanMicrosecond, tie_sc_scanMillisecond, tie_sc_scanSecond]
+  (repeat' split) <;> simp_all [enc]
+
+theorem tie_sc_scanMillisecondOrMinute (cs : List Char) :
+    Extracted.C20.sc_scanMillisecondOrMinute cs = enc (Scan.scanMilliOrMinute cs) := by
+  simp only [Extracted.C20.sc_scanMillisecondOrMinute, Scan.scanMilliOrMinute, Scan.isNul, cur_eq, tie_sc_isDigit,
+    tie_sc_scanMinute, tie_sc_scanMillisecond]
+  (repeat' split) <;> simp_all [enc]
+
+theorem tie_sc_scanHour (cs : List Char) : Extracted.C20.sc_scanHour cs = enc (Scan.scanHour cs) := by
+  simp only [Extracted.C20.sc_scanHour, Scan.scanHour, Scan.skipDigits, cur_eq, tie_sc_isDigit,
+    tie_sc_scanNanosecond, tie_sc_scanMicrosecond, tie_sc_scanMillisecondOrMinute, tie_sc_scanSecond]
+  (repeat' split) <;> simp_all [enc]
+
+/-- the whole duration family: the translated `scanDuration` is the model's, for every input -/
+theorem tie_sc_scanDuration (cs : List Char) : Extracted.C20.sc_scanDuration cs = enc (Scan.scanDuration cs) := by
+  simp only [Extracted.C20.sc_scanDuration, Scan.scanDuration, cur_eq,
+    tie_sc_scanNanosecond, tie_sc_scanMicrosecond, tie_sc_scanMillisecondOrMinute, tie_sc_scanSecond, tie_sc_scanHour]
+  (repeat' split) <;> simp_all [enc]
 
 end GoZero.C20.Tie
